@@ -57,6 +57,8 @@ func expandToken(v string) string {
 		return bigBody
 	case "UNI":
 		return uniTitle
+	case "UBLANK":
+		return "\u00a0\u3000\u00a0"
 	}
 	return v
 }
